@@ -13,6 +13,7 @@ import (
 	"pgregory.net/rapid"
 
 	"go.etcd.io/raft/v3/quorum"
+	"go.etcd.io/raft/v3/tracker"
 	"verif/harness/refmodel"
 	"verif/harness/report"
 )
@@ -219,7 +220,7 @@ func genSet(t *rapid.T, label string) []uint64 {
 // path), hostile ids and indexes, acks/votes for non-members, metamorphic
 // relations.
 func TestC12(t *testing.T) {
-	rep := report.New("C12", "random part: voter sets of size 0..15, ids and indexes from {small, 2^32, MaxUint64-1, MaxUint64}, acks/votes also for non-members; non-trivial = non-empty set and >=2 distinct ack values (or >=1 missing vote); distinct = digest of (sets, acks, votes)")
+	rep := report.New("C12", "random part: voter sets of size 0..15, ids and indexes from {small, 2^32, MaxUint64-1, MaxUint64}, acks/votes also for non-members; each case is also evaluated through tracker.ProgressTracker (Committed from Match, TallyVotes, QuorumActive from RecentActive, with a learner present); non-trivial = non-empty set and >=2 distinct ack values (or >=1 missing vote); distinct = digest of (sets, acks, votes)")
 	defer rep.Write()
 	failed := false
 	rapid.Check(t, func(rt *rapid.T) {
@@ -314,6 +315,46 @@ func TestC12(t *testing.T) {
 				if r2 := toRef(jc.VoteResult(v2)); r2 != refmodel.Won {
 					fail("monotone_vote", "adding a yes from %d turned Won into %v", id, r2)
 				}
+			}
+		}
+		// the same decisions as made through tracker.ProgressTracker (commit
+		// index from Match, vote tally, CheckQuorum activity)
+		{
+			trk := tracker.MakeProgressTracker(4, 0)
+			trk.Voters = quorum.JointConfig{mc(in), mc(out)}
+			if len(out) == 0 {
+				trk.Voters[1] = nil
+			}
+			active := map[uint64]bool{}
+			match := ackMap{}
+			for _, id := range universe {
+				pr := &tracker.Progress{Match: acks[id], Next: acks[id] + 1, Inflights: tracker.NewInflights(4, 0)}
+				if acks[id] == math.MaxUint64 {
+					pr.Match, pr.Next = acks[id]-1, acks[id]
+				}
+				match[id] = pr.Match
+				pr.RecentActive = rapid.Bool().Draw(rt, "active")
+				active[id] = pr.RecentActive
+				trk.Progress[id] = pr
+			}
+			// a learner (never a voter) must not influence any decision
+			if rapid.Bool().Draw(rt, "learner") {
+				lid := uint64(rapid.IntRange(200, 205).Draw(rt, "learnerid"))
+				trk.Learners = map[uint64]struct{}{lid: {}}
+				trk.Progress[lid] = &tracker.Progress{Match: genIndex().Draw(rt, "lmatch") / 2, IsLearner: true, RecentActive: rapid.Bool().Draw(rt, "lactive"), Inflights: tracker.NewInflights(4, 0)}
+			}
+			if got, want := trk.Committed(), refmodel.JointCommittedIndex(in, out, match); got != want && len(in) > 0 {
+				fail("tracker_commit", "ProgressTracker(%v,%v).Committed() with matches %v = %d, reference %d", in, out, match, got, want)
+			}
+			for id, v := range votes {
+				trk.RecordVote(id, v)
+			}
+			if _, _, res := trk.TallyVotes(); toRef(res) != wantV {
+				fail("tracker_tally", "ProgressTracker(%v,%v).TallyVotes() with votes %v = %v, reference %v", in, out, votes, toRef(res), wantV)
+			}
+			wantActive := refmodel.HasMajority(in, active) && refmodel.HasMajority(out, active)
+			if got := trk.QuorumActive(); got != wantActive && len(in) > 0 {
+				fail("tracker_quorum_active", "ProgressTracker(%v,%v).QuorumActive() with recently active %v = %v, reference (majority of every set) %v", in, out, refmodel.SortedKeys(active), got, wantActive)
 			}
 		}
 		// insertion order independence: rebuild the config in reverse order
